@@ -384,7 +384,7 @@ def nontrivial(defn: dict) -> bool:
 
 def features(defn: dict, acc: dict | None = None) -> dict:
     acc = acc if acc is not None else {}
-    for k in ("defaults", "hooks", "old", "sub", "mixed"):
+    for k in ("defaults", "hooks", "old", "sub", "mixed", "extends"):
         if defn.get(k):
             acc[k] = 1
     for i, f in enumerate(defn["fields"]):
@@ -781,9 +781,21 @@ class Forms:
             else:
                 specs.append((n, t))
         mod = _scratch_module()
+        ext = defn.get("extends")
         try:
-            cls = dataclasses.make_dataclass(defn["name"], specs, bases=(DataClassPayload,),
-                                             namespace=_hook_namespace(defn), module=SCRATCH)
+            if ext and 0 < ext[0] < len(specs):
+                # the definition written as a dataclass payload that extends another dataclass payload: the first
+                # ext[0] fields live in the parent; ext[1] = the parent is used (and hence converted) first
+                base = dataclasses.make_dataclass(defn["name"] + "Base", specs[:ext[0]], bases=(DataClassPayload,),
+                                                  module=SCRATCH)
+                setattr(mod, defn["name"] + "Base", base)
+                cls = dataclasses.make_dataclass(defn["name"], specs[ext[0]:], bases=(base,),
+                                                 namespace=_hook_namespace(defn), module=SCRATCH)
+                if ext[1]:
+                    base(*[None] * ext[0])
+            else:
+                cls = dataclasses.make_dataclass(defn["name"], specs, bases=(DataClassPayload,),
+                                                 namespace=_hook_namespace(defn), module=SCRATCH)
         except (TypeError, ValueError) as e:
             raise Inexpressible(f"dataclasses refuses: {e}") from e
         setattr(mod, defn["name"], cls)
@@ -1241,6 +1253,8 @@ def _definition_strategy(plain_formats: list[str]):
             defn["mixed"] = 1
         if draw(st.booleans()):
             defn["native"] = 1
+        if len(fields) > 1 and draw(st.integers(0, 2)) == 0:
+            defn["extends"] = [draw(st.integers(1, len(fields) - 1)), draw(st.integers(0, 1))]
         return defn
 
     @st.composite
